@@ -2,7 +2,7 @@
    pinned by [Check name : statement] and followed by [Print Assumptions]. *)
 From Coq Require Import Sorting.Sorted Sorting.Permutation Strings.String Strings.Ascii.
 From RM Require C09.Model C09.Grammar C09.Driver.
-From RM Require Import C08.SymText.
+From RM Require Import C08.SymText C08.SymTextC.
 From RM Require Import C08.Model C08.Proofs C08.IndexProofs C08.WinModel C08.WinProofs C08.Driver Gen.C08Tables C08.Tie C08.EndToEnd C08.StreamRead C08.Unified.
 Open Scope Z_scope.
 
@@ -480,6 +480,30 @@ Proof.
   split; [exact text_tables_sound|]. split; [exact st_tables_sound|]. split; [exact prov_init|exact prov_recog].
 Qed.
 Print Assumptions c08_text_finish_sound.
+
+(* ... and COMPLETENESS from the text (C08/SymTextC.v): if no complete line is longer than 80 KiB (such a line would be
+   dropped as corrupt) and the parse is Ok, a FUNC line whose range [address, address + size) meets the range of no
+   OTHER FUNC line of the text (lines without a range - size 0, or reaching past 2^64 - do not count) is found by
+   `functions.get(x)` at every address x in it, and the function found carries the address, size, parameter size and
+   name written on that line.  (A FUNC line is never taken for a sub-line of the open group nor for a blank line, so
+   the FUNC items the parser holds are, in file order, exactly the FUNC lines of the text: hdrs_fold.) *)
+Theorem c08_text_func_complete :
+  forall lines tail sch p s,
+  Forall (fun l => C09.Grammar.cllen l <= C09.Model.HALF_CAP) lines ->
+  C09.Driver.drive_c lines tail sch = Ret (C09.Model.ROk p, s) ->
+  exists t, C09.Driver.table_of (C09.Model.ROk p) = Ret (Some t) /\
+    forall L1 s0 L2 f0 x,
+      lines = L1 ++ s0 :: L2 -> C09.Grammar.line_top s0 = Some (C09.Grammar.IFunc f0) ->
+      let a := C09.Grammar.fr_addr f0 in let sz := C09.Grammar.fr_size f0 in
+      sz <> 0 -> a + sz < two64 -> a <= x < a + sz ->
+      (forall s' f', In s' (L1 ++ L2) -> C09.Grammar.line_top s' = Some (C09.Grammar.IFunc f') ->
+         C09.Grammar.fr_size f' = 0 \/ two64 <= C09.Grammar.fr_addr f' + C09.Grammar.fr_size f' \/
+         C09.Grammar.fr_addr f' + C09.Grammar.fr_size f' <= a \/ a + sz <= C09.Grammar.fr_addr f') ->
+      exists f, rm_get (C09.Grammar.t_funcs t) x = Some f /\
+        C09.Grammar.sf_addr f = a /\ C09.Grammar.sf_size f = sz /\
+        C09.Grammar.sf_psize f = C09.Grammar.fr_psize f0 /\ C09.Grammar.sf_name f = C09.Grammar.fr_name f0.
+Proof. exact text_func_complete_arith. Qed.
+Print Assumptions c08_text_func_complete.
 
 (* non-vacuity: a text with two overlapping FUNCs (the second is dropped), line records (one empty, one conflicting),
    a STACK CFI INIT record, two overlapping STACK WIN records (the first is shortened) and a FUNC reaching past the
